@@ -13,6 +13,20 @@ def J(x):
     return jnp.asarray(np.asarray(x, dtype=np.float64))
 
 
+def IDX(idx):
+    """index array in a container / dtype that varies deterministically with its content
+    (int64 / int32 jax arrays, numpy int64 / uint8 when all entries are non-negative)."""
+    idx = [int(i) for i in idx]
+    k = (sum(idx) + 3 * len(idx)) % 4
+    if k == 0:
+        return jnp.array(idx)
+    if k == 1:
+        return jnp.array(idx, dtype=jnp.int32)
+    if k == 2 or min(idx) < 0:
+        return np.array(idx, dtype=np.int64)
+    return np.array(idx, dtype=np.uint8)
+
+
 def N(x):
     return np.asarray(x, dtype=np.float64)
 
